@@ -61,14 +61,15 @@ def gen_history(tier, seed):
         def new_arr(ls, bad_shape=False):
             d = new_dset(ls)
             h = nxt[1]; nxt[1] += 1
+            ctor = "arr" if r.random() < 0.6 else f"sarr {r.choice(['param', 'stock', 'flow'])}"   # base class or a subclass
             if bad_shape and not ls:
                 # an array without dimensions holds one number of shape (): (1,) and (1, 1) are other shapes
-                lines.append(f"arr ${h} ${d} {r.choice(['1', '1,1'])} {vals(1)}")
+                lines.append(f"{ctor} ${h} ${d} {r.choice(['1', '1,1'])} {vals(1)}")
             elif bad_shape:
                 wrong = list(ls)[::-1] + ["e"]
-                lines.append(f"arr ${h} ${d} {shape(wrong)} {vals(size(wrong))}".rstrip())
+                lines.append(f"{ctor} ${h} ${d} {shape(wrong)} {vals(size(wrong))}".rstrip())
             else:
-                lines.append(f"arr ${h} ${d} {shape(ls)} {vals(size(ls), nonzero=True)}".rstrip())
+                lines.append(f"{ctor} ${h} ${d} {shape(ls)} {vals(size(ls), nonzero=True)}".rstrip())
                 arrs[h] = list(ls)
             lines.append("dumpall")
             return h
@@ -124,6 +125,8 @@ def gen_history(tier, seed):
                         kv.append(f"{l}=d:${subh[l]}")
                     elif k < 0.5:
                         kv.append(f"{l}=i:snope")
+                if r.random() < 0.1:
+                    kv.insert(r.randint(0, len(kv)), "z=i:sk")      # a dimension the array does not have: refused
                 lines.append(f"getitem ${h} ${a} K:{';'.join(kv)}"); cnt("getitem"); result_fresh = h
             elif roll < 0.86:
                 # assignment into a
@@ -134,6 +137,18 @@ def gen_history(tier, seed):
                         kv.append(f"{l}=i:{UNIVERSE[l].split(':')[4].split(',')[r.randrange(LENS[l])]}")
                     elif k < 0.4:
                         kv.append(f"{l}=i:snope")
+                if r.random() < 0.1:
+                    kv.insert(r.randint(0, len(kv)), "z=i:sk")      # a dimension the array does not have: refused
+                if r.random() < 0.15:
+                    # whole-array assignment from an array over the same dimensions; later writes into the
+                    # source must not show in the target
+                    lines.append(f"copy ${h} ${a}"); lines.append("dumpall")
+                    lines.append(f"mul ${h + 1} ${h} n:2"); lines.append("dumpall")
+                    lines.append(f"setitem ${a} E ${h + 1}"); cnt("setitem"); lines.append("dumpall")
+                    lines.append(f"probe_write ${h + 1} 0 {r.randint(50, 99)}"); stats["probes"] += 1
+                    lines.append("dumpall")
+                    nxt[1] += 2
+                    continue
                 key = "K:" + ";".join(kv) if (kv or r.random() < 0.5) else "E"
                 kind = r.random()
                 if kind < 0.35:
